@@ -51,7 +51,14 @@ def rule_r1(ctx) -> List[R.Inst]:
                      for n in body_txt) or any(
         isinstance(n, ast.Subscript) and isinstance(n.value, ast.Attribute) and n.value.attr in ("df", "_df")
         for n in body_txt)
-    if uses_iloc and not uses_label:
+    sliced = [n for n in body_txt if isinstance(n, ast.Subscript) and isinstance(n.value, ast.Attribute) and
+              n.value.attr == "iloc" and isinstance(n.slice, ast.Slice)]
+    if sliced:
+        insts.append(R.viol("C16.R1", "int-index", file, sliced[0].lineno,
+                            f"the row is taken with the slice '{unparse(sliced[0])}': for item = -1 that is iloc[-1:0], an empty "
+                            f"frame, so negative indices (tl[-1]) raise although a plain sequence returns the last element",
+                            construct=unparse(sliced[0])))
+    elif uses_iloc and not uses_label:
         insts.append(R.ok("C16.R1", "int-index", file, int_branch.lineno, idiom="self.df.iloc[item]"))
     else:
         insts.append(R.viol("C16.R1", "int-index", file, int_branch.lineno,
